@@ -1,28 +1,28 @@
 #!/bin/bash
-# tools/verifyseed.sh <PID>: confirms a seeded change in /tmp/seed-<PID> (+ /tmp/seed-<PID>-out) and stores it under /verif/seeded/<PID>/
+# tools/verifyseed.sh <PID> [round]: confirms a seeded change in /tmp/seed[round]-<PID> (+ -out) and stores it under /verif/seeded/<PID>[-round]/
 export GOFLAGS=-mod=mod GOPROXY=off
-P=$1; W=/tmp/seed-$P; O=/tmp/seed-$P-out; D=/verif/seeded/$P
+P=$1; R=$2; W=/tmp/seed$R-$P; O=/tmp/seed$R-$P-out; D=/verif/seeded/$P; [ -n "$R" ] && D=/verif/seeded/$P-$R
 cd $W || exit 2
 cmd=$(python3 -c "import json;print(json.load(open('$O/meta.json'))['demo_cmd'])")
 echo "== $P demo_cmd: $cmd"
-git -C $W diff > /tmp/seed-$P.cur.diff
-go build ./... > /tmp/seed-$P.build.log 2>&1; b=$?
-go test -vet=off -count=1 ./amd/insts/ ./amd/kernels/ ./amd/bitops/ ./amd/emu/cdna3/ ./amd/timing/cp/internal/resource/ ./nvidia/... > /tmp/seed-$P.tests.log 2>&1; t=$?
-( eval "$cmd" ) > /tmp/seed-$P.demo-with.log 2>&1; with=$?
+git -C $W diff > /tmp/seed$R-$P.cur.diff
+go build ./... > /tmp/seed$R-$P.build.log 2>&1; b=$?
+go test -vet=off -count=1 ./amd/insts/ ./amd/kernels/ ./amd/bitops/ ./amd/emu/cdna3/ ./amd/timing/cp/internal/resource/ ./nvidia/... > /tmp/seed$R-$P.tests.log 2>&1; t=$?
+( eval "$cmd" ) > /tmp/seed$R-$P.demo-with.log 2>&1; with=$?
 git stash -q
-( eval "$cmd" ) > /tmp/seed-$P.demo-without.log 2>&1; without=$?
+( eval "$cmd" ) > /tmp/seed$R-$P.demo-without.log 2>&1; without=$?
 git stash pop -q
 echo "build=$b demo_with_patch=$with demo_without_patch=$without existing_tests=$t"
 if [ $b -eq 0 ] && [ $with -ne 0 ] && [ $without -eq 0 ] && [ $t -eq 0 ]; then
   mkdir -p $D; cp $O/patch.diff $D/patch.diff; rm -rf $D/demo; cp -r $O/demo $D/demo
-  python3 - "$P" "$b" "$with" "$without" "$t" <<'PY'
+  python3 - "$P" "$b" "$with" "$without" "$t" "$R" "$D" <<'PY'
 import json,sys
-P=sys.argv[1]
-m=json.load(open(f'/tmp/seed-{P}-out/meta.json'))
-m['confirmed_by_lead']={"worktree":f"/tmp/seed-{P} (scratch git worktree of /repo, removed afterwards)","go build ./...":"ok","demo with patch":"fails (exit %s)"%sys.argv[3],"demo without patch (git stash)":"passes","existing tests (amd/insts, amd/kernels, amd/bitops, amd/emu/cdna3, amd/timing/cp/internal/resource, nvidia/...) with patch":"pass"}
-json.dump(m,open(f'/verif/seeded/{P}/meta.json','w'),indent=1)
+P=sys.argv[1]; R=sys.argv[6]; D=sys.argv[7]
+m=json.load(open(f'/tmp/seed{R}-{P}-out/meta.json'))
+m['confirmed_by_lead']={"worktree":f"/tmp/seed{R}-{P} (scratch git worktree of /repo, removed afterwards)","go build ./...":"ok","demo with patch":"fails (exit %s)"%sys.argv[3],"demo without patch (git stash)":"passes","existing tests (amd/insts, amd/kernels, amd/bitops, amd/emu/cdna3, amd/timing/cp/internal/resource, nvidia/...) with patch":"pass"}
+json.dump(m,open(D+'/meta.json','w'),indent=1)
 PY
   echo "stored in $D"
 else
-  echo "NOT CONFIRMED"; tail -n 5 /tmp/seed-$P.demo-with.log /tmp/seed-$P.demo-without.log /tmp/seed-$P.tests.log | cut -c1-300
+  echo "NOT CONFIRMED"; tail -n 5 /tmp/seed$R-$P.demo-with.log /tmp/seed$R-$P.demo-without.log /tmp/seed$R-$P.tests.log | cut -c1-300
 fi
